@@ -326,3 +326,37 @@ def variants(rng, meta):
     rng.shuffle(b3)
     out.append(("tautologies", "\n".join(decl + b3) + "\n"))
     return out
+
+
+def tp_program(rng, planted=True):
+    """difference networks over `tp` (time-point) variables - the real-valued difference-logic theory: bounds,
+    differences and equalities with offsets; planted (all true under a hidden assignment) or free"""
+    n = rng.randint(1, 4)
+    names = [f"t{i}" for i in range(n)]
+    hidden = {t: F(rng.randint(0, 12)) for t in names}
+    cons = []
+    for _ in range(rng.randint(1, 6)):
+        k = rng.random()
+        a = rng.choice(names)
+        if k < 0.4 or n == 1:
+            c = F(rng.randint(0, 12))
+            op = rng.choice(["<=", ">=", "==", "<", ">"])
+            e = ("rel", op, ("v", a), ("k", c))
+        else:
+            b = rng.choice([x for x in names if x != a])
+            c = F(rng.randint(-4, 6))
+            op = rng.choice(["<=", ">=", "==", "<", ">"])
+            if rng.random() < 0.5:
+                e = ("rel", op, ("-", [("v", a), ("v", b)]), ("k", c))
+            else:
+                e = ("rel", op, ("v", a), ("+", [("v", b), ("k", c)]))
+        if planted and not ev(e, hidden):
+            # make it true under the plant by choosing the operator
+            l, r = ev(e[2], hidden), ev(e[3], hidden)
+            e = ("rel", "==" if l == r else ("<=" if l < r else ">="), e[2], e[3])
+        cons.append(e)
+    if planted:
+        # every time point gets a lower bound: the exposed value of a `tp` variable is its tightest lower bound
+        cons = [("rel", ">=", ("v", t), ("k", F(0))) for t in names] + cons
+    lines = [f"tp {t};" for t in names] + [show(c) + ";" for c in cons]
+    return "\n".join(lines) + "\n", {"reals": names, "bools": [], "constraints": cons, "pins": {}, "hidden": hidden if planted else None}
